@@ -1011,11 +1011,20 @@ func (ps *parser) parseQuant() (*Expr, error) {
 		qv := QVar{Name: v.text}
 		if ps.isOp(":") {
 			ps.next()
-			s, err := ps.parseSort()
-			if err != nil {
-				return nil, err
+			if ps.isOp("*") {
+				// a Go pointer type: *pkg.Name
+				var sb strings.Builder
+				for !ps.isOp("::") && !ps.isOp(",") && !ps.isOp("{") && ps.peek().kind != "eof" {
+					sb.WriteString(ps.next().text)
+				}
+				qv.Sort = sb.String()
+			} else {
+				s, err := ps.parseSort()
+				if err != nil {
+					return nil, err
+				}
+				qv.Sort = s
 			}
-			qv.Sort = s
 		}
 		q.Vars = append(q.Vars, qv)
 		if ps.isOp(",") {
